@@ -26,49 +26,31 @@ for op in EXPR:
     ))
 
 def popham(op):
+    """popcount / hamdist: the functional contract (prefix sums, DESIGN 3.3) is NOT decided: the SWAR adder tree of one
+    4-limb block against the sum of four bit counts did not come back from kissat or MiniSat in 5 minutes (measured, DESIGN 8).
+    What is proved here is the frame (no writes), that every limb read is inside {up,n} / {vp,n}, and termination."""
     f = '__gmpn_' + op
     ham = op == 'hamdist'
-    L = (lambda j: '(V_up0[%s] ^ V_vp0[%s])' % (j, j)) if ham else (lambda j: 'V_up0[%s]' % j)
-    pc = lambda j: '(mp_bitcnt_t) __builtin_popcountl (%s)' % L(j)
     walk = 'up == V_up0 + V_o' + (' && vp == V_vp0 + V_o' if ham else '')
-    # V_o = limbs consumed so far (ghost, recomputed from the loop counters)
-    inv0 = '''(0 <= i && i <= (V_n0 >> 2) && n == V_n0 && %s && result <= 64 * (mp_bitcnt_t) V_o
-        && (gk < V_o ==> (g_po == g_pi + %s && g_po <= 64 * (mp_bitcnt_t) (gk + 1) && (gk == 0 ==> g_pi == 0)))
-        && (gk == V_o - 1 ==> g_po == result))''' % (walk.replace('V_o', '(4 * ((V_n0 >> 2) - i))'), pc('gk'))
-    inv0 = inv0.replace('V_o', '(4 * ((V_n0 >> 2) - i))')
-    # tail loop: n in 1..3 limbs left, partial byte-wise counts in x (each byte <= 8 per limb added)
-    inv1 = '''(1 <= n && n <= V_t0 && V_t0 <= 3 && %s
-        && V_lanes_le (x, 8 * (mp_limb_t) (V_t0 - n))
-        && V_xs == V_xsum (x)
-        && (gk < V_o ==> (g_po == g_pi + %s && g_po <= 64 * (mp_bitcnt_t) (gk + 1) && (gk == 0 ==> g_pi == 0)))
-        && (gk == V_o - 1 ==> g_po == V_r1 + V_xs))''' % (walk, pc('gk'))
-    inv1 = inv1.replace('V_o', '(V_b1 + (V_t0 - n))')
-    blk = ' + '.join('V_c%d' % j for j in range(4))
-    pre = lambda j: ' + '.join(['V_rb'] + ['V_c%d' % t for t in range(j)])
-    begin0 = 'long V_bb = 4 * ((V_n0 >> 2) - i); mp_bitcnt_t V_rb = result; mp_bitcnt_t ' + ', '.join('V_c%d = %s' % (j, pc('V_bb + %d' % j)) for j in range(4)) + '; ' + ' '.join(
-        'if (gk == V_bb + %d) { g_pi = %s; g_po = g_pi + V_c%d; }' % (j, pre(j), j) for j in range(4))
-    end0 = '__CPROVER_assert (result == V_rb + %s, "[C10] %s: SWAR count of a 4-limb block equals the sum of the limb popcounts");' % (blk, op)
+    inv0 = ('(0 <= i && i <= (V_n0 >> 2) && n == V_n0 && %s)' % walk).replace('V_o', '(4 * ((V_n0 >> 2) - i))')
+    inv1 = ('(1 <= n && n <= V_t0 && V_t0 <= 3 && V_b1 + V_t0 == V_n0 && %s)' % walk).replace('V_o', '(V_b1 + (V_t0 - n))')
     return dict(
-        name='mpn_' + op, props=['C10', 'C04', 'C15'], source='mpn/generic/%s.c' % op, contracts=['mpn.h'], enforce=[f],
-        contract_text='''/* sum of the 8 byte lanes of x */
-#define V_lanes_le(x,m) ((((x) & 0xff) <= (m)) && ((((x) >> 8) & 0xff) <= (m)) && ((((x) >> 16) & 0xff) <= (m)) && ((((x) >> 24) & 0xff) <= (m)) && ((((x) >> 32) & 0xff) <= (m)) && ((((x) >> 40) & 0xff) <= (m)) && ((((x) >> 48) & 0xff) <= (m)) && ((((x) >> 56) & 0xff) <= (m)))
-#define V_xsum(x) ((mp_bitcnt_t) (((x) & 0xff) + (((x) >> 8) & 0xff) + (((x) >> 16) & 0xff) + (((x) >> 24) & 0xff) + (((x) >> 32) & 0xff) + (((x) >> 40) & 0xff) + (((x) >> 48) & 0xff) + (((x) >> 56) & 0xff)))''',
+        name='mpn_' + op + '_safety', props=['C10', 'C04', 'C15'], source='mpn/generic/%s.c' % op, enforce=[f],
+        contract_text='mp_bitcnt_t %s (mp_srcptr up, %smp_size_t n) __CPROVER_requires (1 <= n && n <= V_NMAX && V_R_OK (up, n)%s) __CPROVER_assigns ();'
+                      % (f, 'mp_srcptr vp, ' if ham else '', ' && V_R_OK (vp, n)' if ham else ''),
+        assumptions=['mpn_%s: only memory safety, frame and termination are proved; the bit-count value is undecided (SWAR adder tree, SAT time-out)' % op],
         functions={f: dict(
-            entry='mp_size_t V_n0 = n; mp_srcptr V_up0 = up%s; mp_bitcnt_t V_xs = 0, V_r1 = 0; long V_b1 = 0, V_t0 = 0; g_pi = 0; g_po = 0;' % (', V_vp0 = vp' if ham else ''),
-            inserts=[(r'n &= 3;', r'\g<0> V_b1 = V_n0 - n; V_t0 = n; V_r1 = result; V_xs = 0;'),
-                     (r'x = \(x >> 8\) \+ x;\s*x = \(x >> 16\) \+ x;\s*x = \(x >> 32\) \+ x;\s*result \+= x & 0xff;',
-                      r'\g<0> __CPROVER_assert (result == V_r1 + V_xs, "[C10] tail: folded byte lanes equal the lane sum");')],
-            loops={0: dict(scalars=['i', 'p0', 'p1', 'p2', 'p3', 'p01', 'p23', 'x', 'result', 'g_pi', 'g_po'],
+            entry='mp_size_t V_n0 = n; mp_srcptr V_up0 = up%s; long V_b1 = 0, V_t0 = 0;' % (', V_vp0 = vp' if ham else ''),
+            inserts=[(r'n &= 3;', r'\g<0> V_b1 = V_n0 - n; V_t0 = n;')],
+            loops={0: dict(scalars=['i', 'p0', 'p1', 'p2', 'p3', 'p01', 'p23', 'x', 'result'],
                            havoc_targets=['up'] + (['vp'] if ham else []),
                            havoc='{ __CPROVER_assume (0 <= i && i <= (V_n0 >> 2)); up = V_up0 + 4 * ((V_n0 >> 2) - i); %s }' % ('vp = V_vp0 + 4 * ((V_n0 >> 2) - i);' if ham else ''),
-                           inv=inv0, dec='i', begin=begin0, end=end0, local_to_body=['V_bb', 'V_rb', 'V_c0', 'V_c1', 'V_c2', 'V_c3']),
-                   1: dict(scalars=['n', 'p0', 'x', 'V_xs', 'g_pi', 'g_po'], havoc_targets=['up'] + (['vp'] if ham else []),
+                           inv=inv0, dec='i'),
+                   1: dict(scalars=['n', 'p0', 'x'], havoc_targets=['up'] + (['vp'] if ham else []),
                            havoc='{ __CPROVER_assume (1 <= n && n <= V_t0); up = V_up0 + V_b1 + (V_t0 - n); %s }' % ('vp = V_vp0 + V_b1 + (V_t0 - n);' if ham else ''),
-                           inv=inv1, dec='n',
-                           begin='{ long V_c = V_b1 + (V_t0 - n); if (gk == V_c) { g_pi = V_r1 + V_xs; g_po = g_pi + %s; } V_xs += %s; }' % (pc('V_c'), pc('V_c')),
-                           local_to_body=['V_c'])})},
-        harness=mpn_harness('mpn_' + op, '%s (%s, n);' % (f, 'up, vp' if ham else 'up'), ptrs=('up', 'vp') if ham else ('up',)), timeout=1200, tier='thorough',
-        selftest=[(f, r'n &= 3;', 'n &= 1;'), (f, r'up \+= 4;', 'up += 3;')],
+                           inv=inv1, dec='n')})},
+        harness=mpn_harness('mpn_' + op + '_safety', '%s (%s, n);' % (f, 'up, vp' if ham else 'up'), ptrs=('up', 'vp') if ham else ('up',)),
+        selftest=[(f, r'up \+= 4;', 'up += 5;')],
     )
 UNITS.append(popham('popcount'))
 UNITS.append(popham('hamdist'))
